@@ -10,7 +10,7 @@ from . import harness as H
 REGISTRY = {
     "C01": "props.c01_confmaps", "C02": "props.c02_coords", "C04": "props.c04_registration", "C05": "props.c05_pafs",
     "C06": "props.c06_local_peaks", "C07": "props.c07_global_peaks", "C08": "props.c08_grouping", "C09": "props.c09_tracking",
-    "C10": "props.c10_identity", "C11": "props.c11_labels", "C12": "props.c12_batch", "C13": "props.c13_readers",
+    "C10": "props.c10_identity", "C11": "props.c11_labels", "C12": "props.c12_batch", "C13": "props.c13_readers", "C14": "props.c14_shapes",
     "C15": "props.c15_oks", "C16": "props.c16_metrics", "C17": "props.c17_toposort", "C18": "props.c18_pipelines",
     "C20": "props.c20_config",
 }
